@@ -98,6 +98,8 @@ type park struct {
 type stats struct {
 	labels     map[string]bool
 	nontrivial bool
+	// sizes reached at some quiescent point of the generated steps
+	maxPending, maxHolders, maxBlocked int
 }
 
 func (s *stats) labelList() []string {
@@ -928,11 +930,24 @@ func (h *harness) settle(s int) *verr {
 		}
 	}
 	// 4. connections
-	addrsActive := 0
+	addrsActive, pending, blocked, holding := 0, 0, 0, 0
 	for _, t := range h.cur {
 		if t != nil {
 			addrsActive++
+			if t.state == attInflight {
+				pending++
+			}
 		}
+	}
+	for _, r := range h.reqs {
+		if !r.observed {
+			blocked++
+		} else if r.holding {
+			holding++
+		}
+	}
+	if !h.epi {
+		h.st.maxPending, h.st.maxBlocked, h.st.maxHolders = max(h.st.maxPending, pending), max(h.st.maxBlocked, blocked), max(h.st.maxHolders, holding)
 	}
 	if addrsActive >= 2 {
 		h.label("two-addresses-active")
@@ -1088,7 +1103,7 @@ func (h *harness) history() string {
 }
 
 func runBubble(sc *Scenario) (stats, *verr) {
-	if sc.Addrs < 1 || sc.Addrs > 8 || sc.Threads < 1 || sc.Threads > 64 {
+	if sc.Addrs < 1 || sc.Addrs > 1024 || sc.Threads < 1 || sc.Threads > 4096 {
 		return stats{}, newVerr("harness-error", "scenario out of range: %d addresses, %d threads", sc.Addrs, sc.Threads)
 	}
 	h := &harness{sc: sc, addrIdx: map[string]int{}, armed: map[string]bool{}, cur: make([]*attempt, sc.Addrs), lastEnd: make([]string, sc.Addrs)}
